@@ -1,0 +1,16 @@
+//go:build verif
+// +build verif
+
+// Contracts for the deductive verifier in /verif (govc). Comment-only: this file adds no code.
+
+package bitmap
+
+//@ global Mask: forall j int :: 0 <= j && j <= 64 ==> Mask[j] == lowmask(j)
+
+//@ func Rank64 returns (c, b)
+//@   requires len(words) < 1<<25
+//@   requires isRank64Index(words, rindex, false) || isRank64Index(words, rindex, true)
+//@   requires 0 <= i && int(i) < 64*len(words)
+//@   ensures c == rank(words, i)
+//@   ensures b == bitAt(words, i)
+//@   assigns nothing
